@@ -236,16 +236,14 @@ Definition m_split (e : enc) (delim subject : list Z) : sres :=
        | EArr => RSeqs e (array_split Z.eqb delim subject)
        end.
 
-(* join on an array of sequences (strings or arrays; the bytes form of join
-   intersperses single bytes and is a different operation, see DESIGN) *)
+(* join on an array of sequences (strings, byte arrays or arrays; join with a byte array as the
+   SUBJECT intersperses single bytes and is a different operation, see DESIGN) *)
 Definition m_join (e : enc) (joiner : list Z) (parts : list (list Z)) : sres :=
   match parts with
   | [] => RSeq e []
   | _ => match e with
-         | EStr => RSeq e (ref_join joiner parts)
+         | EStr | EBytes => RSeq e (ref_join joiner parts)      (* strings.Join / bytes.Join *)
          | EArr => RSeq e (array_join joiner parts)
-         | EBytes => (* arrayJoin accepts only the empty set as a byte array *)
-             if is_nil joiner && forallb is_nil parts then RSeq e [] else RErr
          end
   end.
 
